@@ -354,3 +354,36 @@ Proof.
     destruct chains as [|x r]; [|discriminate H2]. apply pair_eqb_eq in H2. inversion H2. subst. exact He.
   - apply nodupb_NoDup. exact H3.
 Qed.
+
+(* ---------- configuration conversions -------------------------------------------------------- *)
+
+Lemma config_tables_check : forallb config_table_ok ffi_config_tables = true.
+Proof. vm_compute. reflexivity. Qed.
+
+Theorem config_fields_namesake_wrapped : forall ct f acc w,
+  In ct ffi_config_tables -> In (f, acc, w) (ct_rows ct) ->
+  (acc = f \/ In (f, acc) (ct_aliases ct)) /\ In w config_wrappers /\ lookup f (ct_pinned ct) = Some w.
+Proof.
+  intros ct f acc w Hct Hr. pose proof config_tables_check as H. rewrite forallb_forall in H.
+  specialize (H ct Hct). unfold config_table_ok in H. apply andb_true_iff in H. destruct H as [H _].
+  apply andb_true_iff in H. destruct H as [H _]. rewrite forallb_forall in H. specialize (H (f, acc, w) Hr).
+  cbn [config_row_ok] in H. apply andb_true_iff in H. destruct H as [H Hp].
+  apply andb_true_iff in H. destruct H as [Hn Hw]. split; [|split].
+  - apply orb_true_iff in Hn. destruct Hn as [Hn|Hn].
+    + left. apply String.eqb_eq. exact Hn.
+    + right. apply pair_mem_In. exact Hn.
+  - apply mem_In. exact Hw.
+  - apply is_some_eq_true. exact Hp.
+Qed.
+
+Theorem config_pins_needed : forall ct, In ct ffi_config_tables ->
+  (forall f w, In (f, w) (ct_pinned ct) -> In f (map (fun r => fst (fst r)) (ct_rows ct)))
+  /\ NoDup (map (fun r => fst (fst r)) (ct_rows ct)).
+Proof.
+  intros ct Hct. pose proof config_tables_check as H. rewrite forallb_forall in H.
+  specialize (H ct Hct). unfold config_table_ok in H. apply andb_true_iff in H. destruct H as [H H3].
+  apply andb_true_iff in H. destruct H as [_ H2]. split.
+  - intros f w Hp. rewrite forallb_forall in H2. specialize (H2 (f, w) Hp). cbn [fst] in H2.
+    apply mem_In. exact H2.
+  - apply nodupb_NoDup. exact H3.
+Qed.
